@@ -28,10 +28,20 @@ variable {α : Type}
   unfold keepCurOnError; split <;> simp_all
 @[simp] theorem keepCurOnError_log (l0 : Live S.V) (r : NRes S α) : (keepCurOnError l0 r).1.log = r.1.log := by
   unfold keepCurOnError; split <;> simp_all
-@[simp] theorem keepCurOnError_joinIdx (l0 : Live S.V) (r : NRes S α) : (keepCurOnError l0 r).1.joinIdx = r.1.joinIdx := by
-  unfold keepCurOnError; split <;> simp_all
+/-- after a failed navigation the `@join` progress is what it was before -/
+theorem keepCurOnError_joinIdx_error (l0 : Live S.V) (r : NRes S α) (e : Exc) (h : r.2 = .error e) :
+    (keepCurOnError l0 r).1.joinIdx = l0.joinIdx := by
+  unfold keepCurOnError; split
+  · rfl
+  · rename_i hne; obtain ⟨l', x⟩ := r; simp only at h; subst h; exact absurd rfl (hne l' e)
 @[simp] theorem keepCurOnError_out (l0 : Live S.V) (r : NRes S α) : (keepCurOnError l0 r).1.out = r.1.out := by
   unfold keepCurOnError; split <;> simp_all
+theorem keepCurOnError_fst_of_ok (l0 : Live S.V) (r : NRes S α) (o : α) (h : r.2 = .ok o) :
+    (keepCurOnError l0 r).1 = r.1 := by
+  obtain ⟨l', x⟩ := r
+  simp only at h
+  subst h
+  rfl
 theorem keepCurOnError_ok (l0 : Live S.V) (r : NRes S α) (l' : Live S.V) (o : α) (h : r = (l', .ok o)) :
     keepCurOnError l0 r = (l', .ok o) := by subst h; rfl
 theorem keepCurOnError_of_ok (l0 : Live S.V) (r : NRes S α) (l' : Live S.V) (o : α) (h : keepCurOnError l0 r = (l', .ok o)) :
